@@ -20,11 +20,24 @@ def run(ctx):
     ctx.assumptions += ['describe_* message builders run against a null-sink ostream model (message text not checked)',
                         'std::domain_error modelled by stubs/cxxrt.c (object = vptr + message copy)',
                         'operator new never fails']
+    # Full-width obligations.  The all-pairs 64-bit division/modulo queries are attempted first; if one does not
+    # finish inside its cap it is INCONCLUSIVE and the operand-class harnesses (one quantity < 2^VP_W, the other
+    # operand fully symbolic) carry the narrower claim, which is stated per obligation.
+    full = [('c08_add', 300), ('c08_sub', 300), ('c08_neg', 300), ('c08_cmp', 300), ('c08_mul_any', 600)]
+    divmod_any = [('c08_div_any', 900), ('c08_mod_any', 900)]
+    classes = [('c08_div_smallB', 600), ('c08_div_smallQ', 600), ('c08_mod_smallB', 600), ('c08_mod_smallQ', 600),
+               ('c08_mul_smallA', 300), ('c08_mul_smallB', 300)]
+    plan = full + classes + (divmod_any if ctx.tier != 'quick' or True else [])
     jobs = []
-    for e, to in [('c08_add', 300), ('c08_sub', 300), ('c08_neg', 300), ('c08_cmp', 300)] + [('c08_mul_any', 600), ('c08_div_any', 1200), ('c08_mod_any', 1200)]:
+    for e, to in plan:
         if ctx.only and e not in ctx.only:
             continue
-        jobs.append(lambda e=e, to=to: V.run_entry(ctx, m, e, 10, timeout=to, cdefs=('VP_DIV_BY_IDENTITY',), bounds='all 2^130 operand pairs (64-bit payload x signedness, both operands)'))
+        if ctx.tier == 'thorough' and e.endswith('_any'):
+            to *= 4
+        b = 'all 2^130 operand pairs (64-bit payload x signedness, both operands)'
+        if 'small' in e:
+            b = 'one quantity (|a|, |b| or the quotient, see name) < 2^8, the other operand fully symbolic 64-bit x signedness'
+        jobs.append(lambda e=e, to=to, b=b: V.run_entry(ctx, m, e, 10, timeout=to, cdefs=('VP_DIV_BY_IDENTITY',), bounds=b))
     V.run_parallel(jobs)
 
 def replay(ctx, js):
